@@ -80,7 +80,7 @@ class Pack2D(Contract):
                                       self.step_ok(CVAR.get(j, 0), prev(j), ROLDS.get(j), self.rv.get(j, 0))))
 
     def inv_rows(self, env):
-        k0 = env['__it_myJ']
+        k0 = env.it
         CVAR, ROLDS, ROLD, VAR1 = env['CVAR'], env['ROLDS'], env['ROLD'], env['VAR1']
         return [('index-in-range', And(ge(k0, 0), le(k0, self.ny))),
                 ('first-element', eq(VAR1, self.rv.get(0, 0))),
@@ -88,14 +88,14 @@ class Pack2D(Contract):
                 ('first-column-packed-so-far', self.col0_done(env, k0, CVAR, ROLDS))]
 
     def keep_rows(self, env):
-        j = sub(env['__it_myJ'], 1)
+        j = sub(env.it, 1)
         ICVAL = env['ICVAL']
         return [('packed-integer-in-byte-range', And(ge(ICVAL, 0), le(ICVAL, 255))),
                 ('stored-byte-is-the-packed-integer', eq(env['CVAR'].get(j, 0), ICVAL)),
                 ('this-element-within-one-step', le(sym.abs_(sub(self.rv.get(j, 0), env['ROLD'])), self.h))]
 
     def inv_cols(self, env):
-        c = env['__it_myI']
+        c = env.it
         CVAR, ROLDS, ROLD = env['CVAR'], env['ROLDS'], env['ROLD']
         G = env.ctx.ghost['G']
         r, cc = z3.Int('ic_r'), z3.Int('ic_c')
@@ -111,7 +111,7 @@ class Pack2D(Contract):
                 ('columns-packed-so-far', done)]
 
     def keep_cols(self, env):
-        c = sub(env['__it_myI'], 1)
+        c = sub(env.it, 1)
         ICVAL, ROLD, CVAR = env['ICVAL'], env['ROLD'], env['CVAR']
         r = z3.Int('kc_r')
         inr = And(ge(r, 0), lt(r, self.ny))
@@ -126,16 +126,16 @@ class Pack2D(Contract):
 
     def ghost_cols_step(self, env):
         G, ROLD = env.ctx.ghost['G'], env['ROLD']
-        c = sub(env['__it_myI'], 1)           # the column just packed (the index has already advanced)
+        c = sub(env.it, 1)           # the column just packed (the index has already advanced)
         old = G
         return {'G': SArr((self.ny, self.nx), lambda q: sym.ite(eq(q[1], c), ROLD.get(q[0]), old.get(q)), 'f', tag='G')}
 
     @property
     def loops(self):
         return {0: LoopSpec(inv=self.inv_rows, lemmas=self.entry_lemmas, keep_lemmas=self.keep_rows,
-                            decreases=lambda env: sub(self.ny, env['__it_myJ']),
+                            decreases=lambda env: sub(self.ny, env.it),
                             modifies={'CVAR': lambda env, q: eq(q[1], 0), 'ROLDS': lambda env, q: True}),
-                1: LoopSpec(inv=self.inv_cols, keep_lemmas=self.keep_cols, decreases=lambda env: sub(self.nx, env['__it_myI']),
+                1: LoopSpec(inv=self.inv_cols, keep_lemmas=self.keep_cols, decreases=lambda env: sub(self.nx, env.it),
                             ghost_init=lambda env: {'G': self.ghost_cols_init(env)}, ghost_step=self.ghost_cols_step,
                             modifies={'CVAR': lambda env, q: ge(q[1], 1)})}
 
